@@ -165,6 +165,34 @@ pub fn single_mutants(j: &Value) -> Vec<(String, Value)> {
             _ => {}
         }
     }
+    // group removals: every member of one field number (all options of 50, of 52, …) and of two field numbers at once, in
+    // the body and in every sequence element ("neither 50a nor 52a" rules need both gone)
+    {
+        let mut objs: Vec<Vec<String>> = vec![vec!["fields".to_string()]];
+        for p in &ps {
+            if let Some(Value::Object(_)) = at(&mut base, p) {
+                if p.iter().any(|k| k == "#") && (p.last().map(|k| k == "#").unwrap_or(false) || p.last().unwrap().parse::<usize>().is_ok()) {
+                    objs.push(p.clone());
+                }
+            }
+        }
+        for o in &objs {
+            let Some(Value::Object(map)) = at(&mut base, o).map(|v| v.clone()) else { continue };
+            let mut bases: Vec<String> = map.keys().filter(|k| k.len() >= 2 && k.chars().take(2).all(|c| c.is_ascii_digit())).map(|k| k[..2].to_string()).collect();
+            bases.sort();
+            bases.dedup();
+            let party: Vec<&String> = bases.iter().filter(|b| ["50", "52", "53", "54", "56", "57", "59"].contains(&b.as_str())).collect();
+            for (i, a) in party.iter().enumerate() {
+                for b in party.iter().skip(i) {
+                    let mut m = j.clone();
+                    if let Some(Value::Object(mm)) = at(&mut m, o) {
+                        mm.retain(|k, _| !(k.starts_with(a.as_str()) || k.starts_with(b.as_str())));
+                    }
+                    out.push((format!("remove-all {}/{a}*+{b}*", o.join("/")), m));
+                }
+            }
+        }
+    }
     // additions to every object that is a message body or a sequence element
     let mut objs: Vec<Vec<String>> = vec![vec!["fields".to_string()]];
     for p in &ps {
